@@ -27,6 +27,10 @@
    `inspect.getsourcelines(ref)[1]` of each is an input.  [load] / [load_tasks] take the already
    ordered list of creators.
 
+   The value a creator gives BEFORE generate_tasks has looked at it is [pyres] (any Python value, the falsy ones
+   {} [] () '' 0 0.0 False included); [classify] is the chain of isinstance tests that turns it into an [item];
+   generate_tasks_py / load_py are generate_tasks / load on these values.
+
    Not modelled: @task_params / creator_params, the `doc` attribute beyond its type check (the
    creator docstring put into the dict is a str or None, always valid), lazily created `actions`
    instances (created at execution, not at load), result_dep objects given by the user in
@@ -391,6 +395,56 @@ Definition task_obj (lv : level) (nm : val) (attrs : list (attr * val)) : res ta
                                                     | None => if attr_eqb a AActions then Some VNone else None end)
             None false.
 
+(* ------------------------------------------------------------------ the value a task-creator gives, BEFORE any
+   isinstance test.  [item] above is what generate_tasks has already classified (a dict with its keys read, a
+   Task, a generator, None, "something else"); [pyres] is the Python value itself, so that the classification
+   -- in particular of the FALSY values {} [] () '' 0 0.0 False, which are neither None nor a task -- is part
+   of the model:
+     PVal v        a plain value: str, path, list, tuple, bool, None, int, float, function, class, object, and
+                   VDict kv = a dict whose keys are arbitrary values ('actions', 'name', ... are VStr keys)
+     PTaskObj      Task(nm, **attrs)
+     PGen l        a generator object yielding these values (a generator object is truthy even when it yields nothing)
+   [classify] = the chain of tests of generate_tasks (loader.py 391-427), the same for what a generator yields
+   (loader.py 401-409 + _generate_task_from_yield 318-320):
+     isinstance(x, Task) -> isinstance(x, dict) -> inspect.isgenerator(x) -> x is None -> anything else.
+   There is no test of the truth value of x anywhere on that path. *)
+Inductive pyres :=
+| PVal (v : val)
+| PTaskObj (nm : val) (attrs : list (attr * val))
+| PGen (l : list pyres).
+
+Definition attr_name (a : attr) : string :=
+  match a with
+  | AActions => "actions" | AFileDep => "file_dep" | ATaskDep => "task_dep" | AUptodate => "uptodate"
+  | ACalcDep => "calc_dep" | ATargets => "targets" | ASetup => "setup" | AClean => "clean"
+  | ATeardown => "teardown" | ADoc => "doc" | AParams => "params" | APosArg => "pos_arg"
+  | AVerbosity => "verbosity" | AIo => "io" | AGetargs => "getargs" | ATitle => "title"
+  | AWatch => "watch" | AMeta => "meta"
+  end%string.
+Definition attr_of_string (s : string) : option attr := find (fun a => String.eqb (attr_name a) s) attr_order.
+(* how the code reads a key of the dict: 'name' / 'basename' (loader.py 295, 322), a key of Task.valid_attr,
+   or anything else (task.py 585-588: "Task %s contains invalid field") *)
+Definition key_of_val (v : val) : key :=
+  match v with
+  | VStr s => if String.eqb s "name" then KName else if String.eqb s "basename" then KBasename
+              else match attr_of_string s with Some a => KAttr a | None => KUnknown 0 end
+  | _ => KUnknown 0
+  end.
+Definition tdict_of (kv : list (val * val)) : tdict := map (fun p => (key_of_val (fst p), snd p)) kv.
+
+Fixpoint classify (r : pyres) : item :=
+  match r with
+  | PTaskObj nm attrs => ITaskObj nm attrs          (* isinstance(gen_result, Task) *)
+  | PVal (VDict kv) => IDict (tdict_of kv)          (* isinstance(gen_result, dict): {} included *)
+  | PGen l => IGen (map classify l)                 (* inspect.isgenerator(gen_result) *)
+  | PVal VNone => INone                             (* gen_result is None *)
+  | PVal _ => IOther                                (* raise InvalidTask: [] () '' 0 0.0 False as well as 42 or object() *)
+  end.
+
+(* what a generator yields once nested generators are flattened *)
+Fixpoint pflat (r : pyres) : list pyres :=
+  match r with PGen l => flat_map pflat l | x => [x] end.
+
 (* the OrderedDict `tasks` of generate_tasks *)
 Definition od := list (string * task).
 Fixpoint od_get (o : od) (k : string) : option task :=
@@ -575,6 +629,18 @@ Definition control (ts : list task) : res (list task) :=
 (* loading as `doit run` / `doit clean` do it: load_tasks, then TaskControl *)
 Definition load (cmds : list string) (allow_delayed : bool) (cs : list creator) : res (list task) :=
   do ts <- load_tasks cmds allow_delayed cs ;; control ts.
+
+(* the same on Python values: generate_tasks(func_name, gen_result) as loader.load_tasks (loader.py 169) and, for a
+   create_after creator at run time, TaskDispatcher._add_task (control.py 495) call it *)
+Definition generate_tasks_py (func : string) (r : pyres) : res (list task) := generate_tasks func (classify r).
+
+Record pcreator := { pc_name : string; pc_result : pyres; pc_delayed : option (option string * list string) }.
+Definition creator_of (c : pcreator) : creator :=
+  {| c_name := pc_name c; c_result := classify (pc_result c); c_delayed := pc_delayed c |}.
+Definition load_tasks_py (cmds : list string) (allow_delayed : bool) (cs : list pcreator) : res (list task) :=
+  load_tasks cmds allow_delayed (map creator_of cs).
+Definition load_py (cmds : list string) (allow_delayed : bool) (cs : list pcreator) : res (list task) :=
+  load cmds allow_delayed (map creator_of cs).
 
 (* ------------------------------------------------------------------ _get_task_creators (loader.py 234-280)
    and `funcs.sort(key=lambda obj: obj[2])` (loader.py 150).
